@@ -133,3 +133,30 @@ func spillNil(n int) (out []byte, err error) {
 	out = make([]byte, n)
 	return out, nil
 }
+
+// ---- lock pairing
+func leakGood(b *box, dup bool) bool {
+	b.mu.Lock()
+	if dup {
+		b.mu.Unlock()
+		return false
+	}
+	b.n++
+	b.mu.Unlock()
+	return true
+}
+func leakBad(b *box, dup bool) bool {
+	b.mu.Lock()
+	if dup {
+		return false
+	}
+	b.n++
+	b.mu.Unlock()
+	return true
+}
+func leakTryGood(b *box) int {
+	if b.mu.TryRLock() {
+		defer b.mu.RUnlock()
+	}
+	return b.n
+}
